@@ -520,6 +520,59 @@ func parkedProducerScenario(bound int) *vsched.Scenario {
 // nil pointers, zero values, equal neighbours, equal-but-distinct pointers ...) into a queue whose channel
 // holds one of them and whose overflow buffer takes the rest; the driver then takes them all back: the
 // accepted values come out exactly once, in order, as the very values that went in.
+// rawChannelAfterIdle: values beyond the channel capacity wait in the overflow buffer; nobody consumes for `idle` of
+// (virtual) time - 100 ms, 5 s, 10 min - and then a consumer that only holds GetChannel() receives: every accepted value
+// still arrives, in order (the loader keeps serving the channel however long nothing moved).
+func rawChannelAfterIdle(capacity, n int, idle time.Duration, bound int) *vsched.Scenario {
+	fam := "buffered-raw-channel-after-idle"
+	return &vsched.Scenario{
+		Name:     fmt.Sprintf("buffered/cap%d/offers%d/idle-%v/receive-from-GetChannel", capacity, n, idle),
+		Bound:    bound,
+		MaxSteps: 4000000,
+		Horizon:  int64(3*idle + 10*time.Second),
+		Body: func() {
+			q := fpgo.NewBufferedChannelQueue[int](capacity, 100, 100).SetLoadFromPoolDuration(idle / 20)
+			ch := q.GetChannel()
+			for i := 1; i <= n; i++ {
+				vsched.Event("offer", i, errName(q.Offer(i)))
+			}
+			time.Sleep(idle)
+			vsched.Event("idle-over")
+			for i := 1; i <= n; i++ {
+				select {
+				case v := <-ch:
+					vsched.Event("got", v)
+				case <-time.After(idle + time.Second):
+					vsched.Event("starved", i)
+					return
+				}
+			}
+			vsched.Event("all")
+			q.Close()
+		},
+		Check: func(r *vsched.Result) []vsched.Failure {
+			fs := e1.Basic("C07", fam, r, nil)
+			if len(fs) > 0 || e1.Index(r, "idle-over") < 0 {
+				return fs
+			}
+			var got []int
+			for _, e := range r.Events {
+				if e.Kind == "got" {
+					got = append(got, e.Args[0].(int))
+				}
+			}
+			want := []int{}
+			for i := 1; i <= n; i++ {
+				want = append(want, i)
+			}
+			if fmt.Sprint(got) != fmt.Sprint(want) {
+				fs = append(fs, e1.Fail("C07|"+fam+"|lost-or-reordered", "%d values were accepted, nobody consumed for %v, then a receiver on GetChannel() got %v (and then waited %v in vain)", n, idle, got, idle+time.Second))
+			}
+			return fs
+		},
+	}
+}
+
 func payloadScenario(label string, vals []interface{}, bound int) *vsched.Scenario {
 	fam := "payload"
 	return &vsched.Scenario{
@@ -584,6 +637,9 @@ func scenarios(tier string) []*vsched.Scenario {
 		out = append(out, chanScenario(c, 2))
 	}
 	out = append(out, parkedProducerScenario(1))
+	for _, idle := range []time.Duration{100 * time.Millisecond, 5 * time.Second, 10 * time.Minute} {
+		out = append(out, rawChannelAfterIdle(2, 6, idle, 1), rawChannelAfterIdle(0, 3, idle, 1))
+	}
 	for _, kind := range []string{"channelqueue", "bufferedchannelqueue"} {
 		out = append(out, pollersScenario(kind, 1, 2, 2), pollersScenario(kind, 2, 3, 2), pollersScenario(kind, 0, 2, 1))
 	}
